@@ -35,12 +35,18 @@ CLAIMED = {
              "concretely per path.",
         ref="3 C09"),
     "C07": dict(
+        engine="crosshair-z3 + ast-smt",
+        technique="bounded symbolic execution with CrossHair/z3 on exact rationals; IEEE-754 round trip "
+                  "by an AST->QF_FP encoding decided by z3",
         text="index_of (3 modes), range_indices (2 modes), position_at/tick_at/axis and the "
              "round trip of the real Sampled/Range/SetDimension classes equal the set-builder "
              "definitions (last sample <= p, last < p, first >= p, IndexError iff none; index "
              "range = samples inside the interval, None iff empty) for EVERY position/offset/tick "
              "on the dyadic lattice k/16, |x| <= 32, intervals 2^-3..2^3, tick vectors of length "
-             "1-3 (quick) / 1-5 (thorough) incl. repeats, 0-4 labels. z3 decides each path.",
+             "1-3 (quick) / 1-5 (thorough) incl. repeats, 0-4 labels. z3 decides each path. In addition, "
+             "in IEEE-754 binary64: index_of(position_at(i)) == i (i-1 for Less) for all i <= 4096 "
+             "(65536 thorough) and the non-dyadic intervals 0.1, 0.001, 0.3 (+offset 0.7), by a QF_FP "
+             "formula generated from the AST of the two methods.",
         note="Floats are modelled by exact rationals (Q) on a lattice where IEEE evaluation is exact "
              "(argued lemma in DESIGN.md, exercised on 2000 points per run, and every counterexample "
              "is replayed with real floats on a real file); NumPy calls are served by a validated "
@@ -170,8 +176,9 @@ CLAIMED = {
              "tagged = same region rule on the feature array, indexed = the row, untagged = whole.",
         note="Coordinates are exact rationals standing for floats on a lattice where IEEE arithmetic "
              "is exact (DESIGN.md lattice lemma); unit factors 1 and 10 only (down-scaling factors "
-             "are inexact in binary); defects that exist only through float rounding of non-dyadic "
-             "intervals (0.1, 0.3 ...) are outside this check. fakeh5 backend; counterexamples are "
+             "are inexact in binary); for non-dyadic intervals (0.1, 0.001, 0.3 with offset 0.7) "
+             "a bit-precise QF_FP encoding generated from the AST of position_at/index_of shows that a "
+             "tag placed exactly on sample i <= 4096 selects exactly sample i. fakeh5 backend; counterexamples are "
              "replayed with real floats on a real HDF5 file.",
         ref="3 C08"),
     "C05": dict(
